@@ -171,18 +171,21 @@ def plans(tier, seed):
     pal = (seed + 1) % 3
     if tier == "quick":
         jobs = [({"np_d": 1, "cs_d": 1, "psets": [0, 1], "cs_sym": ["SX"]},
-                 [(lab, s) for _, lab, s in all_specs(3, 4, 1, pal)])]
-        bounds = {"shapes": "(n,m)<=(3,4)", "config_deviation": 1, "value_deviation": 1, "palette": pal}
+                 [(lab, s) for _, lab, s in all_specs(3, 3, 1, pal)])]
+        bounds = {"shapes": "(n,m)<=(3,3)", "config_deviation": 1, "value_deviation": 1, "palette": pal}
     else:
-        a = [(lab, s) for _, lab, s in all_specs(3, 4, 2, pal)]
-        b = [(lab, s) for _, lab, s in all_specs(4, 5, 1, pal) if s.n == 4]
-        c = [(lab, s) for _, lab, s in all_specs(3, 3, 1, (pal + 1) % 3)]
+        a = [(lab, s) for _, lab, s in all_specs(3, 4, 1, pal)]
+        a2 = [(lab, s) for _, lab, s in all_specs(3, 3, 2, pal)]
+        b = [(lab, s) for _, lab, s in all_specs(4, 4, 1, pal) if s.n == 4]
+        c = [(lab, s) for _, lab, s in all_specs(3, 3, 0, (pal + 1) % 3)]
         jobs = [
             ({"np_d": 1, "cs_d": 1, "psets": [0, 1, 2, 3], "cs_sym": ["SX", "MX"]}, a),
-            ({"np_d": 1, "cs_d": 1, "psets": [0, 1], "cs_sym": ["SX"]}, b),
+            ({"np_d": 1, "cs_d": 0, "psets": [0], "cs_sym": ["SX"]}, a2),
+            ({"np_d": 1, "cs_d": 1, "psets": [0], "cs_sym": ["SX"]}, b),
             ({"np_d": 0, "cs_d": 2, "psets": [0], "cs_sym": ["SX"]}, c),
         ]
-        bounds = {"shapes": "(3,4) c<=2 SX+MX; 4-node shapes (4,5) c<=1; (3,3) c<=1 with pair excursions", "palette": pal}
+        bounds = {"shapes": "(3,4) c<=1 SX+MX with 4 parameter sets; (3,3) c<=2; 4-node shapes (4,4) c<=1; (3,3) base+uniform "
+                            "with pair excursions", "palette": pal}
     return jobs, bounds
 
 
